@@ -17,6 +17,12 @@ Canonical form of a bare Bucket/Set: ('B', flat, has_next).
 from .fam import skey
 
 
+def _same(a, b):
+    """Equality that also holds for states containing nan (C materialises a fresh float
+    object per __getstate__ call, so `is` short-cuts do not apply)."""
+    return a == b or repr(a) == repr(b)
+
+
 def dump(t, tree):
     if not tree:
         st = t.__getstate__()
@@ -31,7 +37,7 @@ def dump_tree(t):
     if len(st) == 1:
         fb = t._firstbucket
         bstate = st[0][0]
-        if fb is None or fb._next is not None or fb.__getstate__() != bstate:
+        if fb is None or fb._next is not None or not _same(fb.__getstate__(), bstate):
             return ('I', bstate[0], 'bad-firstbucket')
         return ('I', bstate[0])
     ttype = type(t)
@@ -66,7 +72,7 @@ def dump_tree(t):
                         leaf = x._data[0].child
                     else:
                         leaf = x._firstbucket
-                    if leaf is None or leaf.__getstate__() != cst[0][0]:
+                    if leaf is None or not _same(leaf.__getstate__(), cst[0][0]):
                         out.append(('X', 'single-leaf node: _firstbucket is not its leaf'))
                     else:
                         h = ['T', (('L', ref(leaf)),), x._firstbucket]
